@@ -83,6 +83,15 @@ fn gen_any(r: &mut Rng, d: usize) -> Expression {
             5 => act(if r.chance(1, 2) { Action::Prune } else { Action::List }),
             6 => act(Action::FileList("x".into())),
             7 => act(Action::PrintFormatted(vec![])),
+            // every variant of the public enums, also the ones parse() never returns (the deprecated
+            // implicit-print action node, unsupported tests, degenerate hand-built values)
+            8 => {
+                #[allow(deprecated)]
+                let a = act(Action::DefaultPrint);
+                a
+            }
+            9 => gen_odd_leaf(r),
+            10 if r.chance(1, 3) => t(gen_unsupported_test_with(r.usize(UNSUPPORTED_TESTS), r)),
             _ => {
                 let k = r.usize(SUPPORTED_TESTS);
                 t(gen_test_kind(k, r))
@@ -113,6 +122,15 @@ pub fn run(ctx: &Ctx, rep: &mut Report) {
                 let me = k;
                 k += 1;
                 if me == hot && r.chance(3, 4) {
+                    if r.chance(1, 8) {
+                        #[allow(deprecated)]
+                        return act(match r.below(4) {
+                            0 => Action::DefaultPrint,
+                            1 => Action::Prune,
+                            2 => Action::List,
+                            _ => Action::Quit,
+                        });
+                    }
                     let a = r.usize(SUPPORTED_ACTIONS);
                     act(gen_action_kind(a, r))
                 } else {
